@@ -86,4 +86,19 @@ def mulUnitSpec (lo hi : Int) (m : Nat) (x : Int) : Option Int :=
 /-- to a coarser unit: divide truncating toward zero (always representable) -/
 def divUnitSpec (m : Nat) (x : Int) : Option Int := some (divTrunc x m)
 
+/-! ### binary floating point (a finite float is the dyadic rational `(-1)^neg · m · 2^e`) -/
+
+/-- float → decimal(p, s): `v · 10^s` computed exactly, rounded half away from zero,
+representable iff it has at most `p` digits -/
+def floatToDecSpec (p : Nat) (s : Int) (neg : Bool) (m : Nat) (e : Int) : Option Int :=
+  let num : Nat := m * 2 ^ e.toNat * 10 ^ s.toNat
+  let den : Nat := 2 ^ (-e).toNat * 10 ^ (-s).toNat
+  let r := divRoundHalfAway (if neg then -(num : Int) else (num : Int)) den
+  if fitsPrec p r then some r else none
+
+/-- float → integer with range `[lo, hi]`: truncate toward zero, representable iff in range -/
+def floatToIntSpec (lo hi : Int) (neg : Bool) (m : Nat) (e : Int) : Option Int :=
+  let r := divTrunc (if neg then -((m * 2 ^ e.toNat : Nat) : Int) else ((m * 2 ^ e.toNat : Nat) : Int)) (2 ^ (-e).toNat)
+  if inRange lo hi r then some r else none
+
 end ArrowModel.C13
